@@ -40,6 +40,8 @@ inductive Prim where
   | curEnq           -- `thread_pool::current::any_enqueued()`
   | resub            -- `co_await thread_pool::current()`: the rest of the body is handed to the pool of this worker thread
   | stopB | destroyB -- `stop()` / delete of the *other* pool instance B (see `Cfg.hasB`)
+  | throw_           -- not an action of the body either: the function given to `run(fn)` ends by throwing; `run`'s closure
+                     -- catches it and resolves the promise with the exception (the future is resolved by the job all the same)
   | react            -- not an action of the body: when the job is *cancelled*, whoever observes it (the coroutine's handler,
                      -- the closure's destructor, the future's watcher) calls back into the pool (`is_stopped()`)
   deriving DecidableEq, Repr, Inhabited
@@ -66,6 +68,7 @@ def Prim.toAct : Prim → Act
   | Prim.wait f => Act.wait f
   | Prim.set f => Act.set f
   | Prim.react => Act.nop
+  | Prim.throw_ => Act.nop
   | Prim.stopB => Act.stopB
   | Prim.destroyB => Act.destroyB
   | Prim.curStopped => Act.curStopped
@@ -174,6 +177,8 @@ inductive Ev where
   | run (j t : Nat) (cur : Bool)
   | cancel (j t : Nat)
   | value (j t : Nat)
+  | exc (j t : Nat)      -- the future was seen resolved with the exception the function threw
+  | thrown (j t : Nat)   -- the function throws
   | flagBlock (t f : Nat) | flagSet (f t : Nat)
   | curStopped (t : Nat) (r : Bool) | curEnq (t : Nat) (r : Bool) | curInline (t : Nat) | crash (t : Nat)
   | unlockB (t : Nat) | cvBlockB (t : Nat)
@@ -296,10 +301,17 @@ def dropJob (c : Cfg) (s : State) (t j : Nat) : State × List Ev :=
       ({ s with dropped := upd s.dropped j (s.dropped j + 1), loc := upd s.loc j Loc.done,
                 lost := upd s.lost j (s.lost j + 1) }, [])
 
+/-- what the watcher of the future of job `j` sees once the job has resolved it -/
+def valueEv (s : State) (t j : Nat) : List Ev :=
+  if (s.body j).contains Prim.throw_ then [Ev.exc j t] else [Ev.value j t]
+
+def thrownEv (s : State) (t j : Nat) : List Ev :=
+  if (s.body j).contains Prim.throw_ then [Ev.thrown j t] else []
+
 /-- the caller of `run()` got the future and starts watching it -/
 def arm (s : State) (t j : Nat) : State × List Ev :=
   match s.fut j with
-  | Fut.value => ({ s with armed := upd s.armed j true, valued := upd s.valued j (s.valued j + 1) }, [Ev.value j t])
+  | Fut.value => ({ s with armed := upd s.armed j true, valued := upd s.valued j (s.valued j + 1) }, valueEv s t j)
   | Fut.broken => ({ s with armed := upd s.armed j true, cancelled := upd s.cancelled j (s.cancelled j + 1) }, cancelEv s t j)
   | _ => ({ s with armed := upd s.armed j true }, [])
 
@@ -348,8 +360,8 @@ def stepBodyEnd (s : State) (t : Nat) : State × List Ev × Outcome :=
     if hasFut (s.kind j) && s.fut j == Fut.pending then
       if s.armed j then
         ({ s with fut := upd s.fut j Fut.value, valued := upd s.valued j (s.valued j + 1), pc := upd s.pc t Pc.wFlush },
-         [Ev.value j t], Outcome.cont)
-      else ({ s with fut := upd s.fut j Fut.value, pc := upd s.pc t Pc.wFlush }, [], Outcome.cont)
+         thrownEv s t j ++ valueEv s t j, Outcome.cont)
+      else ({ s with fut := upd s.fut j Fut.value, pc := upd s.pc t Pc.wFlush }, thrownEv s t j, Outcome.cont)
     else (setPc s t Pc.wFlush, [], Outcome.cont)
 
 def stepIdle (c : Cfg) (s : State) (t : Nat) : State × List Ev × Outcome :=
